@@ -613,7 +613,13 @@ impl GRLParser {
 
     /// Extract salience value from attributes section
     fn extract_salience(&self, attributes_section: &str) -> Result<i32> {
-        if let Some(captures) = salience_regex().captures(attributes_section) {
+        // Quoted strings (description, group names, dates) are opaque: a `salience N`
+        // inside one of them is not the rule's salience
+        let quoted_regex = Pattern::new(r#""[^"]*""#).map_err(|e| RuleEngineError::ParseError {
+            message: format!("Invalid quoted string regex: {}", e),
+        })?;
+        let attributes_section = quoted_regex.replace_all(attributes_section, "\"\"");
+        if let Some(captures) = salience_regex().captures(&attributes_section) {
             if let Some(salience_match) = captures.get(1) {
                 return salience_match
                     .parse::<i32>()
